@@ -16,6 +16,7 @@ mod mergecheck;
 mod modgen;
 mod c12;
 mod c13;
+mod c14;
 mod gen_builders;
 mod util;
 
@@ -36,6 +37,7 @@ fn run_property(id: &str, tier: &str) -> Option<Run> {
         "C11" => c11::run(tier),
         "C12" => c12::run(tier),
         "C13" => c13::run(tier),
+        "C14" => c14::run(tier),
         _ => return None,
     })
 }
@@ -69,6 +71,7 @@ fn main() {
             "C11" => c11::replay(&v["replay"]),
             "C12" => c12::replay(&v["replay"]),
             "C13" => c13::replay(&v["replay"]),
+            "C14" => c14::replay(&v["replay"]),
             _ => Err(format!("no replay for property {prop}")),
         };
         match res {
